@@ -298,9 +298,11 @@ def run_conc(case, out, stats):
             k = KEYS[ki]
             ck = canon(k, typed, usekw)
             await sim.delay(delay)
-            if ttl is not None and any(v[0] == ck for v in in_call.values()) and any(
+            if ttl is not None and running.get(ck, 0) == 0 and any(v[0] == ck for v in in_call.values()) and any(
                     r["ck"] == ck and r["state"] == "done" and loop.time() >= r["t_done"] + ttl for r in execs):
-                f9[0] = True      # an expired entry is replaced while earlier callers of the key are still queued
+                # F9: this caller is the one that finds the entry expired (no computation of the key is running) while
+                # earlier callers of the key are still queued on the old lock
+                f9[0] = True
             if maxsize is not None and maxsize >= 1 and in_call and len(keys_used | {ck}) > maxsize:
                 f3[0] = True      # a call begins while another is in flight and the cache is (about to be) full
             in_call[cid] = [ck, sim.now(), loop.time(), len(execs)]
